@@ -118,6 +118,8 @@ def rand_knobs(rng, kind):
              base=rng.choice(["min", "zero", "rand"]), two_names=rng.random() < 0.5)
     if kind == "bch":
         k["bc"] = rng.choice([0x07, 0x14, 0x15, 0x1f, 0x20, 0x21, 0x22, 0x23, 0x42])
+    if kind == "cgfx":
+        k["backward"] = rng.random() < 0.4        # payloads / names / TXOBs in front of the referring field (F23)
     return k
 
 
@@ -164,12 +166,14 @@ class C20(PropertyCheck):
             "cut (EVERY prefix length of the file: never PANIC/ABORT, Err whenever the cut removes a payload byte), wrong-magic (each magic byte changed: "
             "rejected), odd (3DS containers with textures outside the supported set - sides 4..40 that are not powers of two or not multiples of the tile, "
             "format ids 1, 6, 9, 10, 11 - whole and at every prefix: clean outcome, supported textures of an accepted file checked, model compared), far "
-            "(a 66 KiB junk gap: offsets beyond 16 bits).  Model compared in both profiles (outcome class incl. bad magic, full pixel data / FNV of the Ok line for prefixes).  "
+            "(a 66 KiB junk gap: offsets beyond 16 bits), f32-size (payload bytes requested by ctpk/bch around the binary32 exactness boundary), "
+            "codec-table (sjis_encoded = encoding_rs on all 1- and 2-byte strings), alias (several table entries sharing one stored payload with "
+            "different formats / shapes), wide (a dimension of 2048..4104; above 4096 pixels implementation + oracle only); CGFX files with backward (negative) self-relative offsets in 40 % of the cases.  Model compared in both profiles (outcome class incl. bad magic, full pixel data / FNV of the Ok line for prefixes).  "
             "Non-trivial = container with at least one texture; distinct = distinct case line.")
     assumptions = [
         "A-std: Cursor<&[u8]> reads past the end fail with UnexpectedEof, seeks never fail; binread 2.1.1 FilePtr32::parse seeks to the absolute offset and restores the position",
-        "A-codec: encoding_rs UTF-8 / Shift-JIS decoding reports errors exactly on malformed text (names travel in encoded form; Shift-JIS pairs used are assigned)",
-        "A-float: (bpp * w as f32 * h as f32) as usize is exact for the generated sizes",
+        "A-codec: encoding_rs UTF-8 decoding reports errors exactly on ill-formed UTF-8; CTPK names of conforming files satisfy sjis_encoded (table compared with encoding_rs per character on every run)",
+        "A-float: Rust's f32 multiplication is IEEE binary32 round-to-nearest-even and `as usize` truncates (the product itself is modelled: payload_size32)",
         "A-alloc: allocations of payload-sized buffers succeed",
     ]
 
@@ -220,6 +224,53 @@ class C20(PropertyCheck):
                     if len(img) <= cut_limit:
                         flat = ",".join("%d,%d" % e for e in ext)
                         cases.append(Case("%s cut %s %d %d L%s" % (kind, hx(img), 0, len(img), flat), kind + "-odd-cut"))
+            # aliased payloads: two (or three) table entries point at the SAME stored bytes but differ in format or in shape
+            # (RGB565 / RGBA4 8x8; L8 16x8 / 8x16; RGBA8 8x8 / RGB565 16x8 / LA8 8x16) - every entry must be decoded as its own
+            # format and size
+            if kind != "tpl":
+                for j in range(6 if not thorough else 40):
+                    names = sjis if kind == "ctpk" else utf8
+                    group = [[(3, 8, 8), (4, 8, 8)], [(7, 16, 8), (7, 8, 16)], [(0, 8, 8), (3, 16, 8), (5, 8, 16)],
+                             [(2, 8, 8), (8, 16, 8)], [(12, 16, 16), (7, 16, 8)], [(13, 8, 8), (7, 8, 8), (8, 8, 8)]][j % 6]
+                    blob = rand_bytes(rng, texref.payload_size(*group[0]))
+                    texs = [dict(name=rng.choice(names), w=w, h=h, fmt=fmt, data=blob, pal=b"") for (fmt, w, h) in group]
+                    if j % 2:
+                        texs.insert(rng.randrange(len(texs) + 1), rand_tex3ds(rng, names, 8))
+                    rng.shuffle(texs)
+                    knobs = rand_knobs(rng, kind)
+                    knobs["share"] = True
+                    if kind == "cgfx":
+                        knobs["backward"] = True       # shared storage needs a payload in front of at least one of its TXOBs
+                    img, ext = texcont.WRITERS[kind](texs, rng, **knobs)
+                    assert len(set(o for (o, _) in ext)) < len(ext), "payloads are not shared"
+                    cases.append(Case("%s ref %s %s" % (kind, hx(img), tex_tokens(texs)), kind + "-alias"))
+                    if len(img) <= cut_limit and (thorough or j < 2):
+                        flat = ",".join("%d,%d" % e for e in ext)
+                        cases.append(Case("%s cut %s %d %d L%s" % (kind, hx(img), 0, len(img), flat), kind + "-alias"))
+            else:
+                for j in range(4 if not thorough else 24):
+                    # two TPL images sharing image data (8x4 and 8x1..4 have the same block) and / or the palette
+                    pal = rand_bytes(rng, 2 * 16)
+                    blob = bytes(rng.randrange(16) for _ in range(32))
+                    texs = [dict(name=b"", w=8, h=4, fmt=9, data=blob, pal=pal), dict(name=b"", w=rng.choice([5, 8]), h=rng.choice([1, 3]), fmt=9, data=blob, pal=pal)]
+                    knobs = rand_knobs(rng, kind)
+                    knobs["share"] = True
+                    img, ext = texcont.WRITERS[kind](texs, rng, **knobs)
+                    cases.append(Case("%s ref %s %s" % (kind, hx(img), tex_tokens(texs)), kind + "-alias"))
+            # wide / tall textures: a dimension of 2048 or more (16 KiB payloads; the dimension fields are 16 resp. 32 bits wide).
+            # Above 4096 pixels the list-based model decoders are too slow: implementation + oracle only (the driver answers skip).
+            wide = [(7, 2048, 8), (8, 8, 2048), (7, 2056, 8), (8, 4096, 8), (7, 8, 4104)]
+            for j in range(3 if not thorough else 15):
+                (fmt, w, h) = wide[j % len(wide)]
+                if kind == "tpl":
+                    ncol = 256
+                    t = dict(name=b"", w=w, h=min(h, 2048) if w < 2048 else 4, fmt=9, data=b"", pal=rand_bytes(rng, 2 * ncol))
+                    t["data"] = rand_bytes(rng, texref.ci8_data_size(t["w"], t["h"]))
+                else:
+                    t = dict(name=rng.choice(sjis if kind == "ctpk" else utf8), w=w, h=h, fmt=fmt, data=rand_bytes(rng, texref.payload_size(fmt, w, h)), pal=b"")
+                texs = [t] if j % 2 == 0 else [rand_textpl(rng, 8) if kind == "tpl" else rand_tex3ds(rng, sjis if kind == "ctpk" else utf8, 8), t]
+                img, ext = texcont.WRITERS[kind](texs, rng, **rand_knobs(rng, kind))
+                cases.append(Case("%s ref %s %s" % (kind, hx(img), tex_tokens(texs)), kind + "-wide"))
             # offsets beyond 16 bits: a junk gap of 66 KiB in front of one of the parts (whole-file cases only)
             for j in range(4 if not thorough else 24):
                 n = 1 + j % 3
@@ -232,6 +283,17 @@ class C20(PropertyCheck):
                     knobs["base"] = "zero"       # section-relative offsets become large as well
                 img, ext = texcont.WRITERS[kind](texs, rng, **knobs)
                 cases.append(Case("%s ref %s %s" % (kind, hx(img), tex_tokens(texs)), kind + "-far"))
+        # the f32 payload-size request of ctpk.rs / bch.rs around the exactness boundary (payloads of 8..32 MiB built by
+        # the harness; formats 10 / 11, whose decoder ignores the data): does the reader ask for round_f32(bpp*w*h) bytes?
+        f32_sizes = [(10, 1001, 999), (10, 4097, 4099), (11, 4097, 4099), (11, 2897, 2899)]
+        if thorough:
+            f32_sizes += [(10, 4096, 4096), (11, 4096, 4096), (10, 4099, 4101), (11, 5793, 5795), (10, 8191, 4099), (11, 4099, 4097),
+                          (10, 5793, 5793), (11, 8191, 2049), (10, 65535, 257), (11, 257, 65535), (10, 4097, 4097)]
+            f32_sizes += [(rng.choice([10, 11]), rng.randrange(4000, 6000), rng.randrange(4000, 6000)) for _ in range(20)]
+        for (fmt, w, h) in f32_sizes:
+            for kind in ("ctpk", "bch"):
+                cases.append(Case("%s f32 %d %d %d" % (kind, fmt, w, h), "f32-size"))
+        cases.append(Case("ctpk codec", "codec-table"))
         rng.shuffle(cases)          # spread the expensive prefix sweeps over the shards
         return cases
 
@@ -241,6 +303,19 @@ class C20(PropertyCheck):
         kind, sub = toks[0], toks[1]
         if impl_out in ("PANIC", "ABORT", "TIMEOUT") or impl_out.startswith("MISSING") or impl_out.startswith("UNKNOWN"):
             return "%s %s: %s" % (kind, sub, impl_out)
+        if sub == "codec":
+            return None                      # the table itself is compared with the model's (leg K)
+        if sub == "f32":
+            fmt, w, h = int(toks[2]), int(toks[3]), int(toks[4])
+            bpp = {10: 0.5, 11: 1.0}[fmt]
+            true = int(bpp * w * h)                                   # exact in double precision
+            asked = int(struct.unpack("<f", struct.pack("<f", bpp * w * h))[0])   # one binary32 rounding, then truncation
+            if asked != true:
+                return None              # outside f32_exact: no claim of the property; the model (leg K) pins what the code does
+            if impl_out != "EEOOO":
+                return ("%s: %dx%d format %d: a payload of %d bytes (exactly representable in binary32): outcomes for payload lengths "
+                        "-2..+2 are %s, expected EEOOO (accepted iff complete)" % (kind, w, h, fmt, true, impl_out))
+            return None
         if sub == "ref":
             texs = parse_tex_tokens(toks[3:])
             ot = impl_out.split(" ")
@@ -321,25 +396,35 @@ TB = ("Trusted: Coq 8.16.1 kernel (vm_compute, no native_compute), no axioms (Pr
 MANIFEST = dict(
     text="Theorems about executable machine-level Gallina models (outcome monad Ok/Err/Panic, checked and wrapping u32 arithmetic, Cursor reads) of "
          "ctpk::read, bch::read, cgfx::read and Tpl::extract_textures (the binread derive modelled by hand: absolute FilePtr32 offsets, position "
-         "restored) against format relations conforms_ctpk / _bch / _cgfx / _tpl written independently of the parsers from the published layouts, with "
-         "tables, names and payloads anywhere in the file. All four parsers are proved (no _partial theorem): on every conforming file, in both "
-         "arithmetic modes, the reader returns decode_all of the packed textures - same number, order, names (where stored), dimensions, pixel data = "
-         "the C19 decoding of each texture's own payload - and on the supported textures (colour formats 0,2,3,4,5,7,8 with sides that are multiples of 8, ETC1/ETC1A4 with power-of-two sides; CI8 with "
-         "indices inside its RGB5A3 palette) that is Ok (map decoded texs) with mode-independent pixels; BCH, CGFX and TPL input whose first four bytes "
-         "are not the magic number is Err EBadMagic (shorter input Err); for every conforming file and every k < |f| reading the first k bytes never "
-         "panics and is an error whenever the cut removes a byte of a texture payload (TPL: image or palette data) as located by the file's own tables; "
-         "the four boolean checkers conforms_*b are sound. 29 theorems, closed under the global context. The models are tied to /repo on every run: "
-         "containers from an independent Python writer with placement knobs that the extracted verified checkers accepted, read whole (full pixel data) "
-         "and at EVERY prefix length (outcome class incl. bad magic, FNV of the Ok line), wrong magic numbers, debug and release builds; the oracle "
-         "(count, order, names, dimensions, pixels by the reference decoders of gen/texref.py; no PANIC/ABORT on any prefix, Err when a payload byte is "
-         "missing) is independent of the Coq model.",
+         "restored; the f32 payload-size product of ctpk.rs / bch.rs with its binary32 rounding; CGFX self-relative offsets modulo 2^32) against format "
+         "relations conforms_ctpk / _bch / _cgfx / _tpl written independently of the parsers from the published layouts, with tables, names and "
+         "payloads anywhere in the file (CGFX: also in front of the referring field). All four parsers are proved (no _partial theorem): on every "
+         "conforming file, in both arithmetic modes, the reader returns decode_all of the packed textures - same number, order, names (where stored), "
+         "dimensions, pixel data = the C19 decoding of each texture's own payload; for CTPK and BCH under the explicit hypothesis f32_exact (the "
+         "reader's binary32 size request equals the true payload size: proved for payloads below 8 MiB and for power-of-two sides, refuted by a "
+         "witness for 4097x4099 L4). On the supported textures (colour formats 0,2,3,4,5,7,8 with sides that are multiples of 8, ETC1/ETC1A4 with "
+         "power-of-two sides; CI8 whose visible pixels index into the RGB5A3 palette) that is Ok (map decoded texs) with mode-independent pixels, and "
+         "composed with C19: pixel (X,Y) of texture i = decode_color of the payload element at the tiled index / the decoded palette entry at "
+         "ci8_index. BCH, CGFX and TPL input whose first four bytes are not the magic number is Err EBadMagic (shorter input Err); for every "
+         "conforming file and every k < |f| reading the first k bytes never panics and is an error whenever the cut removes a byte of a texture payload "
+         "(TPL: image or palette data) as located by the file's own tables; the four boolean checkers conforms_*b are sound; finding F23 is kept as a "
+         "witness theorem (a conforming CGFX file with backward offsets on which the pre-repair sum panics in the checked mode). The models are tied "
+         "to /repo on every run: containers from an independent Python writer with placement knobs (incl. backward CGFX offsets) that the extracted "
+         "verified checkers accepted, read whole (full pixel data) and at EVERY prefix length, wrong magic numbers, the number of payload bytes "
+         "requested around the binary32 exactness boundary (8..32 MiB payloads built by the harness), the Shift-JIS table against encoding_rs on all "
+         "one- and two-byte strings, debug and release builds; the oracle (count, order, names, dimensions, pixels by the reference decoders of "
+         "gen/texref.py; no PANIC/ABORT on any prefix, Err when a payload byte is missing; binary32 rounding by struct.pack) is independent of the Coq model.",
     note=TB + "Modelled, not verified: std::io::Cursor and binread 2.1.1 (A-std; binread's FilePtr/Vec/magic/repr semantics transcribed from its source), "
-              "encoding_rs UTF-8 / Shift-JIS validity (A-codec; names travel in encoded form, the Shift-JIS rule is structural and the generators use assigned "
-              "pairs), the f32 payload-size product (A-float, exact for the generated sizes), allocation (A-alloc). Conformity takes CGFX self-relative offsets "
-              "as unsigned (forward references) and TPL images as CI8 + RGB5A3 palette (the only combination extract_textures decodes). Offsets >= 2^24 are "
-              "covered by the theorems but not generated. Defect F20 (BOM sniffing dropped a leading U+FEFF of BCH/CGFX texture names) was repaired in /repo; "
-              "the model describes the repaired code. bch.rs compares backward_compatibility with 20 where the format says 0x20: modelled as coded, proved "
-              "unobservable on conforming files. texture_vec_to_map / LayeredFilesystem::read_*_textures are not part of the check.",
+              "encoding_rs (A-codec: UTF-8 validity = Unicode table 3-7; CTPK names in the format relation must satisfy sjis_encoded, the exact table of "
+              "byte strings that are Shift-JIS encodings of strings - compared with encoding_rs exhaustively per character on every run; the reader model "
+              "itself keeps the structural rule, so on names outside that table model and code may differ), IEEE binary32 semantics of Rust's f32 "
+              "multiplication and `as usize` (A-float, now only this), allocation (A-alloc). f32_exact is an explicit hypothesis of every CTPK/BCH theorem: "
+              "for textures whose bpp*w*h is not representable in binary32 (first possible at 8 MiB) the reader asks for a different number of bytes and "
+              "the theorems do not apply. TPL images are CI8 + RGB5A3 palette (the only combination extract_textures decodes). Offsets >= 2^24 are covered "
+              "by the theorems but not generated. Defects F20 (BOM sniffing dropped a leading U+FEFF of BCH/CGFX texture names) and F23 (CGFX backward "
+              "offsets panicked in checked builds) were repaired in /repo; the models describe the repaired code. bch.rs compares backward_compatibility "
+              "with 20 where the format says 0x20: modelled as coded, proved unobservable on conforming files. texture_vec_to_map / "
+              "LayeredFilesystem::read_*_textures are covered by C12's e2e theorems, not by this check.",
     technique="Coq proof (format relations, prefix-monotonicity of cursor reads lifted through the outcome monad, induction over the texture tables, lia) + "
               "extracted-model differential check on generated containers and all their prefixes + verified format checkers as generator filter + "
               "independent Python oracle (reference decoders)",
